@@ -92,7 +92,17 @@ def ref_stats(x, y, starts, L, win, w, order):
     return tuple(float(v) for v in st)
 
 
-def tolerances(x, y, starts, L, win, safety=1.0):
+def m2_tolerance(m2ref, txy, K):
+    """Derived bound for the scatter M2 = mean_k |P_k - mu|^2 of a correct implementation that forms the
+    per-segment products P_k (each within `txy` of the exact value in re and im), their mean, and then the
+    mean squared distance from that mean:  by the triangle inequality in l2,
+    |sqrt(M2') - sqrt(M2)| <= max_k |e_k - e_mu| <= 2*sqrt(2)*txy, hence
+    |M2' - M2| <= 2*d*sqrt(M2) + d^2 with d = 4*txy, plus the relative rounding of the final mean."""
+    d = 4.0 * txy
+    return 2.0 * d * float(np.sqrt(max(m2ref, 0.0))) + d * d + 16.0 * (K + 2) * U64 * abs(m2ref) + 1e-300
+
+
+def tolerances(x, y, starts, L, win, safety=1.0, m2ref=None):
     """Derived error bound of a *correct* float64 implementation.
 
     The per-segment value is produced by a Goertzel-type second-order recurrence
@@ -122,7 +132,10 @@ def tolerances(x, y, starts, L, win, safety=1.0):
     tyy = 2 * Sy * dY + dY * dY + tiny
     txy = Sx * dY + Sy * dX + dX * dY + tiny
     # M2 = mean |P_k - mu|^2 with |P_k| <= Sx*Sy: derivative bounded by 4*Sx*Sy
-    tm2 = 8 * Sx * Sy * txy + 4 * txy * txy + tiny
+    if m2ref is None:
+        tm2 = 8 * Sx * Sy * txy + 4 * txy * txy + tiny   # bound that needs no knowledge of the scatter
+    else:
+        tm2 = m2_tolerance(m2ref, txy, len(starts))
     return txx, tyy, txy, txy, tm2
 
 
